@@ -16,6 +16,36 @@ static var ELEM_rec[] = { NULL, (var)AllocStatic, (var)CELLO_MAGIC_NUM, CELLO_CA
 #define EV(p) (((struct Elem*)(p))->val)
 #define ET(p) (((struct Elem*)(p))->tok)
 
+#ifdef CV_LEDGER_LIGHT
+/* light ledger (Table, Tree): tok is a typestate 0 = unconstructed, 1 = live, 2 = finalised; conservation is checked as
+ * "#live elements held by the container == issued - retired" (a duplicated or dropped element breaks the equation) */
+static int cv_issued, cv_retired; static var cv_last_destructed; static int64_t cv_last_destructed_val;
+#define CV_NTOK 3
+static int cv_live[CV_NTOK] = {0, 1, 0};
+var header_init(var head, var type, int alloc) {
+  struct Header* self = head; self->type = type; self->alloc = (var)(intptr_t)alloc; self->magic = (var)CELLO_MAGIC_NUM;
+  return ((char*)self) + sizeof(struct Header);
+}
+struct Header* header(var self) { return HDR(self); }
+var type_of(var self) { return HDR(self)->type ? HDR(self)->type : Type; }
+static int cv_is_elem(var x) { return HDR(x)->type == ELEM && HDR(x)->magic == (var)CELLO_MAGIC_NUM; }
+static int64_t cv_new_token(void) { cv_issued++; return 1; }
+var assign(var dst, var src) {
+  __CPROVER_assert(cv_is_elem(dst), "[C19] the destination of an element assignment carries the element type in its header");
+  __CPROVER_assert(HDR(src)->type == ELEM, "element assignment from an element");
+  if (ET(dst) == 0) { ET(dst) = cv_new_token(); }
+  else { __CPROVER_assert(ET(dst) == 1, "[C05] assignment onto non-zero memory only if it holds a live element"); }
+  EV(dst) = EV(src);
+  return dst;
+}
+var destruct(var x) {
+  __CPROVER_assert(cv_is_elem(x), "[C19] a finalised element carries the element type in its header");
+  __CPROVER_assert(ET(x) == 1, "[C05] only a live element is finalised (never twice, never an unconstructed one)");
+  ET(x) = 2; cv_retired++; cv_last_destructed = x; cv_last_destructed_val = EV(x);
+  return x;
+}
+static int cv_live_count(void) { return cv_issued - cv_retired; }
+#else
 #define CV_NTOK 24
 static int cv_live[CV_NTOK]; static int cv_next_tok = 1; static int cv_issued, cv_retired;
 static var cv_last_destructed;
@@ -50,13 +80,21 @@ var destruct(var x) {
   cv_retired++; cv_last_destructed = x;
   return x;
 }
+#endif
 int cmp(var a, var b) { return (EV(a) > EV(b)) - (EV(a) < EV(b)); }
 bool eq(var a, var b) { return EV(a) == EV(b); }
 bool neq(var a, var b) { return EV(a) != EV(b); }
 bool lt(var a, var b) { return EV(a) < EV(b); }
 bool gt(var a, var b) { return EV(a) > EV(b); }
 uint64_t __CPROVER_uninterpreted_cvH(int64_t);
-uint64_t hash(var x) { return __CPROVER_uninterpreted_cvH(EV(x)); }
+#ifdef CV_NARROW_HASH
+/* narrow uninterpreted hash: sound for Table.c because the hash is consumed only as hash(key) % nslots (checked mechanically
+ * by the driver on every run) and [0,64) contains every residue for nslots <= 53 */
+static uint64_t cv_hash_of(int64_t v) { return __CPROVER_uninterpreted_cvH(v) & 63; }
+#else
+static uint64_t cv_hash_of(int64_t v) { return __CPROVER_uninterpreted_cvH(v); }
+#endif
+uint64_t hash(var x) { return cv_hash_of(EV(x)); }
 size_t size(var type) { __CPROVER_assert(type == ELEM, "size of the element type"); return sizeof(struct Elem); }
 int64_t c_int(var self) { return ((struct Int*)self)->val; }
 void swap(var a, var b) { struct Elem t = *(struct Elem*)a; *(struct Elem*)a = *(struct Elem*)b; *(struct Elem*)b = t; }
@@ -66,5 +104,7 @@ var cast(var self, var type) {
 }
 /* a live element with an arbitrary value, placed in caller-provided storage */
 static void cv_make_elem(var slot, int64_t v) { EV(slot) = v; ET(slot) = cv_new_token(); }
+#ifndef CV_LEDGER_LIGHT
 static int cv_live_count(void) { int n = 0; for (int i = 1; i < CV_NTOK; i++) n += cv_live[i]; return n; }
+#endif
 #endif
